@@ -114,6 +114,11 @@ class WbMemHarness(Harness):
         ph, op, ref, back, (lat, lastreq), nops, csrdatr = env
         if ph == "R":
             mch = [("hold",)]
+            bop, bi = op
+            if self.p.get("burst_wait_states") and len(bop) == 6 and bi >= 1:
+                mch.append(("wait",))          # stb low, cyc high inside a burst (at most one cycle in a row)
+        elif ph == "W":
+            mch = [("hold",)]
         else:
             mch = [("idle",)]
             if self.depth is None or nops < self.depth:
@@ -125,6 +130,8 @@ class WbMemHarness(Harness):
 
     def cur_op(self, env, ch):
         """the beat presented in this cycle (6-tuple) or None"""
+        if ch[0][0] == "wait":
+            return None
         if ch[0][0] == "hold":
             op, i = env[1]
             return self.beat(op, i)
@@ -133,7 +140,7 @@ class WbMemHarness(Harness):
         return self.beat(ch[0], 0)
 
     def cur_burst(self, env, ch):
-        if ch[0][0] == "hold":
+        if ch[0][0] in ("hold", "wait"):
             return env[1]
         if ch[0][0] == "idle":
             return None
@@ -165,14 +172,21 @@ class WbMemHarness(Harness):
     def drive(self, v, env, ch):
         M = self.Mi
         op = self.cur_op(env, ch)
-        if op is None:
+        if ch[0][0] == "wait":
+            bop, bi = env[1]
+            nb = self.beat(bop, bi)
+            v[M["cyc"]], v[M["stb"]] = 1, 0
+            v[M["adr"]], v[M["we"]], v[M["sel"]], v[M["dat_w"]] = nb[1], int(nb[0] == "w"), nb[2], (1 << self.mw) - 1
+            v[M["cti"]], v[M["bte"]] = nb[4], nb[5]
+        elif op is None:
             v[M["cyc"]] = v[M["stb"]] = 0
             v[M["adr"]], v[M["we"]], v[M["sel"]], v[M["dat_w"]] = 0xF, 1, (1 << self.nl) - 1, (1 << self.mw) - 1
         else:
             v[M["cyc"]] = v[M["stb"]] = 1
             v[M["adr"]], v[M["we"]], v[M["sel"]] = op[1], int(op[0] == "w"), op[2]
             v[M["dat_w"]] = self.data_of(op) if op[0] == "w" else 0
-        v[M["cti"]], v[M["bte"]] = (op[4], op[5]) if op is not None else (0, 0)
+        if ch[0][0] != "wait":
+            v[M["cti"]], v[M["bte"]] = (op[4], op[5]) if op is not None else (0, 0)
         if self.Si is not None:
             S = self.Si
             v[S["ack"]] = v[S["err"]] = 0
@@ -203,6 +217,8 @@ class WbMemHarness(Harness):
         op = self.cur_op(env, ch)
         flags = 0
         ack, er = v[M["ack"]], v[M["err"]]
+        if ch[0][0] == "wait":
+            ack = 0        # a registered-feedback slave cannot know that the master negates stb: ack is only qualified by stb
         if op is None and (ack or er):
             return env, ("ack.stray", f"ack={ack} err={er} without a request"), 0
         if er:
@@ -273,6 +289,8 @@ class WbMemHarness(Harness):
                 nxt = ("T", None)
         elif op is not None:
             nxt = ("R", self.cur_burst(env, ch))
+        elif ch[0][0] == "wait":
+            nxt = ("W", env[1])             # next cycle the beat must be presented again
         else:
             nxt = ("I", None)
         if coop:
@@ -314,6 +332,8 @@ BURSTS = tuple((we, a, kind, n) for we in (0, 1) for (a, kind, n) in ((0, "lin",
 reg("SRAM(8bit,bursting)", "quick", kind="sram", mw=8, adrs=(0, 1), nbytes=8, bursting=True, bursts=BURSTS)
 reg("SRAM(16bit,bursting)", "quick", kind="sram", mw=16, adrs=(0, 1), sels=(0b01, 0b11), nbytes=32, bursting=True, marks=(1,),
     bursts=tuple((we, a, kind, n) for we in (0, 1) for (a, kind, n) in ((0, "lin", 3), (5, "wrap4", 4), (6, "wrap8", 3), (2, "const", 2))))
+reg("SRAM(8bit,bursting)+burst_wait_states", "quick", kind="sram", mw=8, adrs=(0,), nbytes=8, bursting=True, burst_wait_states=True, marks=(1,),
+    bursts=tuple((we, a, kind, n) for we in (0, 1) for (a, kind, n) in ((0, "lin", 3), (1, "wrap4", 4), (2, "const", 2))))
 # cache: addresses 0, 2, 4 collide in a 2-line cache (16/16: line = 1 word), 1 is the other line
 reg("Cache(size=2,16/16)+SRAM", "quick", kind="cache", mw=16, sw=16, adrs=(0, 2, 4), sels=(0b01, 0b11), cachesize=2, backing="sram", nbytes=16, depth=4, marks=(1,))
 reg("Cache(size=2,16/16)+SRAM,depth5", "thorough", kind="cache", mw=16, sw=16, adrs=(0, 2, 4, 1), sels=(0b01, 0b11, 0b10), cachesize=2, backing="sram", nbytes=16, depth=5, cap=3_000_000)
